@@ -45,6 +45,12 @@ pub struct Cfg {
     /// interpreter: where the word sits in the registered range: 0 = range is exactly the word,
     /// 1 = first word of a 32-byte range, 2 = last word of a 32-byte range
     pub range_mode: u8,
+    /// 0: k adds in a row; 1: a loop whose first instruction is the add (reached by the back
+    /// edge); 2: the add is the target of a taken forward branch; 3: the add is the first
+    /// instruction of a local function (not Cranelift)
+    pub shape: u8,
+    /// offset field of the add; the pointer register holds word address - off
+    pub off: i16,
 }
 
 const WORD_OFF: usize = 24;
@@ -58,13 +64,46 @@ fn xadd_prog(cfg: &Cfg, t: usize, addr: u64) -> Vec<I> {
         Sub::Cl => {
             // the word lives in the packet (Cranelift knows no other shared region)
             v.push(isa::mov64r(p, 1));
-            v.push(isa::add64i(p, WORD_OFF as i32));
+            v.push(isa::add64i(p, WORD_OFF as i32 - cfg.off as i32));
         }
-        _ => v.extend(isa::lddw(p, addr)),
+        _ => v.extend(isa::lddw(p, addr.wrapping_sub(cfg.off as i64 as u64))),
     }
     v.extend(isa::lddw(vreg, cfg.addends[t]));
-    for _ in 0..cfg.k {
-        v.push(I::new(opc, p, vreg, 0, 0));
+    let xadd = I::new(opc, p, vreg, cfg.off, 0);
+    let shape = if cfg.shape == 3 && cfg.subs[t] == Sub::Cl { 1 } else { cfg.shape };
+    // a counter register that is neither the pointer nor the value register
+    let creg = [4u8, 5, 0].into_iter().find(|r| *r != p && *r != vreg).unwrap();
+    match shape {
+        1 => {
+            v.push(isa::mov64i(creg, cfg.k as i32));
+            v.push(xadd);
+            v.push(isa::add64i(creg, -1));
+            v.push(I::new(0x55, creg, 0, -3, 0)); // jne creg, 0, back to the add
+        }
+        2 => {
+            for _ in 0..cfg.k {
+                v.push(isa::mov64i(creg, 0));
+                v.push(I::new(0x15, creg, 0, 1, 0)); // jeq creg, 0, +1: taken
+                v.push(isa::mov64i(creg, 1));
+                v.push(xadd);
+            }
+        }
+        3 => {
+            // main: k calls of f; f: add ; exit
+            for i in 0..cfg.k {
+                v.push(isa::call_local((cfg.k - i - 1) as i32 + 2));
+            }
+            v.push(isa::mov64i(0, 0));
+            v.push(isa::EXIT);
+            v.push(xadd);
+            v.push(isa::EXIT);
+            return v;
+        }
+        _ => {
+            for _ in 0..cfg.k {
+                v.push(xadd);
+            }
+        }
     }
     v.push(isa::mov64i(0, 0));
     v.push(isa::EXIT);
@@ -565,7 +604,7 @@ fn all_schedules(counts: &[usize]) -> Vec<Vec<usize>> {
 }
 
 fn cfg_json(c: &Cfg) -> Value {
-    json!({"kind":"sched","subs":c.subs.iter().map(|s| s.name()).collect::<Vec<_>>(),"k":c.k,"width":c.width,"init":format!("{:#x}", c.init),"addends":c.addends.iter().map(|a| format!("{a:#x}")).collect::<Vec<_>>(),"preg":c.preg,"range_mode":c.range_mode})
+    json!({"kind":"sched","subs":c.subs.iter().map(|s| s.name()).collect::<Vec<_>>(),"k":c.k,"width":c.width,"init":format!("{:#x}", c.init),"addends":c.addends.iter().map(|a| format!("{a:#x}")).collect::<Vec<_>>(),"preg":c.preg,"range_mode":c.range_mode,"shape":c.shape,"off":c.off})
 }
 
 fn cfg_from_json(v: &Value) -> Cfg {
@@ -578,6 +617,8 @@ fn cfg_from_json(v: &Value) -> Cfg {
         addends: v["addends"].as_array().unwrap().iter().map(px).collect(),
         preg: v["preg"].as_u64().unwrap() as u8,
         range_mode: v["range_mode"].as_u64().unwrap() as u8,
+        shape: v["shape"].as_u64().unwrap_or(0) as u8,
+        off: v["off"].as_i64().unwrap_or(0) as i16,
     }
 }
 
@@ -770,7 +811,17 @@ fn configs(thorough: bool) -> Vec<Cfg> {
                     if n == 3 && k == 2 && !(width == 8 && init == 0xffff_ffff) {
                         continue;
                     }
-                    v.push(Cfg { subs: subs.clone(), k, width, init, addends: adds[..n].to_vec(), preg, range_mode });
+                    v.push(Cfg { subs: subs.clone(), k, width, init, addends: adds[..n].to_vec(), preg, range_mode, shape: 0, off: 0 });
+                    if n == 2 && init == 0xffff_ffff {
+                        // the add reached by a jump / a call, and through a non-zero offset field from
+                        // a pointer that is itself not aligned
+                        for (shape, off) in [(1u8, 0i16), (2, 0), (3, 0), (0, 2), (0, -4), (1, 14)] {
+                            if k == 2 && !(shape == 1 || off == 2) {
+                                continue;
+                            }
+                            v.push(Cfg { subs: subs.clone(), k, width, init, addends: adds[..n].to_vec(), preg, range_mode, shape, off });
+                        }
+                    }
                 }
             }
         }
@@ -783,7 +834,12 @@ fn configs(thorough: bool) -> Vec<Cfg> {
                     if sub != Sub::Interp && range_mode != 0 {
                         continue;
                     }
-                    v.push(Cfg { subs: vec![sub], k: 1, width, init: 5, addends: vec![0x11], preg, range_mode });
+                    v.push(Cfg { subs: vec![sub], k: 1, width, init: 5, addends: vec![0x11], preg, range_mode, shape: 0, off: 0 });
+                    if range_mode == 0 {
+                        for (shape, off, k) in [(1u8, 0i16, 2usize), (2, 0, 1), (3, 0, 2), (0, 2, 1), (0, -2, 1), (0, 4, 1), (0, 12, 1), (0, -32768, 1), (1, 6, 2)] {
+                            v.push(Cfg { subs: vec![sub], k, width, init: 5, addends: vec![0x11], preg, range_mode, shape, off });
+                        }
+                    }
                 }
             }
         }
@@ -804,7 +860,7 @@ pub fn run(s: &mut Sink) {
     s.meta.insert("rule".into(), json!("evaluation = one complete execution of the subject under one schedule; states/transitions = scheduler states (event prefixes) and scheduling decisions; non-trivial = schedules with at least one context switch between two accesses; the first schedule of every configuration is replayed and must give the identical event trace"));
     s.meta.insert("assumptions".into(), json!(["sequentially consistent interleavings at shared-access granularity plus the rule that a read-modify-write on the word must carry a lock prefix; store-buffer effects are not modelled; x86-64 only"]));
     // self-test first (every shard): the explorer must find the lost update of a non-atomic subject
-    let st = Cfg { subs: vec![Sub::Bad, Sub::Bad], k: 1, width: 8, init: 1, addends: vec![0x10, 0x100], preg: 1, range_mode: 0 };
+    let st = Cfg { subs: vec![Sub::Bad, Sub::Bad], k: 1, width: 8, init: 1, addends: vec![0x10, 0x100], preg: 1, range_mode: 0, shape: 0, off: 0 };
     let mut scratch = s.child();
     let (n, lost) = explore(&mut scratch, &st, false);
     if !(lost && n == 6) {
